@@ -109,10 +109,16 @@ func (s *scriptedRM) BranchReport(ctx context.Context, p rm.BranchReportParam) e
 func (s *scriptedRM) LockQuery(ctx context.Context, p rm.LockQueryParam) (bool, error) {
 	return true, nil
 }
-func (s *scriptedRM) RegisterResource(r rm.Resource) error   { s.res.Store(r.GetResourceId(), r); return nil }
-func (s *scriptedRM) UnregisterResource(r rm.Resource) error { s.res.Delete(r.GetResourceId()); return nil }
-func (s *scriptedRM) GetCachedResources() *sync.Map           { return &s.res }
-func (s *scriptedRM) GetBranchType() branch.BranchType        { return s.bt }
+func (s *scriptedRM) RegisterResource(r rm.Resource) error {
+	s.res.Store(r.GetResourceId(), r)
+	return nil
+}
+func (s *scriptedRM) UnregisterResource(r rm.Resource) error {
+	s.res.Delete(r.GetResourceId())
+	return nil
+}
+func (s *scriptedRM) GetCachedResources() *sync.Map    { return &s.res }
+func (s *scriptedRM) GetBranchType() branch.BranchType { return s.bt }
 
 func init() {
 	// rm_script: register (or re-script) a recording manager for one branch type
